@@ -53,6 +53,21 @@ def check(rep, ctx):
     R_D = rep.rule("C13-default", "every default inhabits the declared type", floor=900)
     R_T = rep.rule("C13-tags", "tags are unique non-negative ints, used only in flexible classes", floor=1600)
     R_P = rep.rule("C13-derivable", "a reader and a writer can be derived for the class", floor=1600)
+    R_EV = rep.rule("C13-evaluated-annotations", "a schema module does not postpone the evaluation of annotations, and defines every class "
+                    "name once: the field description is read from dataclasses.Field.type, which is the annotation object only when annotations "
+                    "are evaluated, and a field annotated with a class that is later redefined refers to a class that is no longer reachable by name",
+                    floor=660, necessary_because="with `from __future__ import annotations` Field.type is the string 'ProducerId': classify_field "
+                                                 "and is_optional see a str, not a type")
+    for mname, m in sorted(S.modules.items()):
+        names = [c_["name"] for c_ in m["classes"]]
+        dup = sorted({n for n in names if names.count(n) > 1})
+        problems = []
+        if m.get("future") or any(v and v[0] == "__future__" and v[1] == "annotations" for v in m["imports"].values()):
+            problems.append("`from __future__ import annotations` turns every Field.type of the module into a string")
+        if dup:
+            problems.append(f"class name(s) {dup} are defined more than once: fields annotated before the redefinition refer to the first class, "
+                            f"the module name to the second -- two classes of one qualified name, unequal instances, no pickling by reference")
+        rep.check(R_EV, not problems, construct=mname, stmt="module header / class names", message="; ".join(problems), file=m["path"], line=1)
     for key in sorted(S.classes):
         c = S.classes[key]
         flexible = S.cv_const(c, "__flexible__")
